@@ -4,6 +4,7 @@ import RedoModel.DoFiles
 import RedoModel.LogRec
 import RedoModel.Commit
 import RedoModel.DepsWire
+import RedoModel.TokensWire
 open RedoModel RedoModel.Wire
 
 def decList (s : String) : Option (List (List Char)) :=
@@ -104,6 +105,7 @@ def respond (line : String) : String :=
       "ops=" ++ ",".intercalate (d.ops.map showOp) ++ " rv=" ++ toString d.rv ++ " ok=" ++ toString d.recordedOk
     | _, _, _, _ => "bad-op"
   | ["deps-run", d, n, rules, ops] => DepsWire.respond d n rules ops
+  | ["tokens-replay", k, evs] => TokensWire.respond k evs
   | _ => "bad-op"
 
 partial def loop (h : IO.FS.Stream) (out : IO.FS.Stream) : IO Unit := do
